@@ -54,6 +54,10 @@ func (m ClientState) GetLatestHeight() exported.Height {
 }
 
 func (m ClientState) Validate() error {
+	// Initialize / UpgradeState compute header.Number % Epoch
+	if m.Epoch == 0 {
+		return sdkerrors.Wrap(ErrInvalidGenesisBlock, "epoch cannot be zero")
+	}
 	return m.Header.ValidateBasic()
 }
 
